@@ -3,7 +3,7 @@
    `-=` is `+=` of (-1)*e), the functor table used by the harness, and a small command interpreter that the
    extracted driver runs next to harness/c01_sparse.cpp.  Definitions only. *)
 From Coq Require Import ZArith List Bool Arith Lia.
-From SharkV Require Import ListAux C01SparseModel C01SparseMatModel.
+From SharkV Require Import ListAux C01SparseModel C01SparseMatModel C01SparseExpr.
 Import ListNotations.
 Open Scope Z_scope.
 
@@ -165,7 +165,10 @@ Inductive scmd :=
 | CMClear (id : nat) | CMClearRange (id i a b : nat)
 | CMKAssign (t s : nat) | CMKFun (f : sfun) (t s : nat)
 | CMOp (noalias : bool) (o : sop) (t s : nat)
-| CMScal (o : sop) (t : nat) (c : Z).
+| CMScal (o : sop) (t : nat) (c : Z)
+| CXV (noalias : bool) (o : sop) (t : nat) (e : sxv)     (* vector target op= sparse vector expression over slots *)
+| CXM (noalias : bool) (o : sop) (t : nat) (rm : bool) (e : sxv).   (* matrix target op= expression over compressed
+                                                                    matrices of orientation rm (SXRef = matrix slot) *)
 
 Record sstore := mkStore { st_v : list vcont; st_m : list mcont }.
 Definition st_empty : sstore := mkStore (repeat (VD []) 8) (repeat (MD true []) 8).
@@ -210,6 +213,24 @@ Definition run_cmd (fx : bool) (s : sstore) (c : scmd) : sstore * (bool * nat) :
   | CMKFun f t src => (setm s t (km_fun (sf_app f) (sf_rzi f) (getm s t) (getm s src)), (false, t))
   | CMOp na o t src => (setm s t (m_op na o (getm s t) (getm s src)), (false, t))
   | CMScal o t c => (setm s t (m_scal o (getm s t) c), (false, t))
+  | CXV na o t e =>
+      let tv := getv s t in
+      let n := match tv with VS v => sv_size v | VD d => length d end in
+      let src := VS (sx_source fx n (fun id => match getv s id with VS v => sv_el v | VD _ => [] end) e) in
+      (setv s t (match na, o, tv with
+                 | false, SSet, VS _ => tv            (* compressed_vector = expression does not compile (sparse.hpp:131) *)
+                 | _, _, _ => v_op fx na o tv src
+                 end), (true, t))
+  | CXM na o t rm e =>
+      let tm := getm s t in
+      let '(major, minor) :=
+        match tm with
+        | MS rt m => if Bool.eqb rt rm then (sm_major m, sm_minor m) else (sm_minor m, sm_major m)
+        | MD rt d => let a := length d in let b := length (nth 0 d []) in if Bool.eqb rt rm then (a, b) else (b, a)
+        end in
+      let src := MS rm (sx_msource fx major minor
+                          (fun id => match getm s id with MS _ m => m | MD _ _ => sm_empty major minor end) e) in
+      (setm s t (m_op na o tm src), (false, t))
   end.
 
 (* the model checks its own invariant on every container it prints *)
